@@ -60,6 +60,7 @@ def check(ctx):
     c04.r04_123(ctx, v)
     c04.r04_4(ctx, v)
     r05_7(ctx, v)
+    r05_8(ctx, g)
     # regions and nodes are mutually exclusive and the region result replaces the node list
     ok = isinstance(v.regions_call.targets[0], ast.Name)
     ctx.check(ok, "R05.6", v.run.where(v.regions_call), "the nodes found under the regions become the node list of the --node machinery", key_of(v.run, f"regions-to-nodes:{norm(v.regions_call)}"))
@@ -461,3 +462,37 @@ def r05_7(ctx, v):
             ok = const_value(kw.get("action"), None) == "append" and norm(kw.get("default")) == "[]" and const_value(kw.get("dest"), None) == which and "nargs" not in kw
             ctx.check(ok, "R05.7", aa.where(c), f"the option for {which} accumulates every occurrence (action='append', default [], dest='{which}'): `-r R1 -r R2` searches both regions", key_of(aa, f"argparse:{which}:{ {k: norm(x) for k, x in kw.items() if k in ('action', 'nargs', 'default', 'dest')} }"))
     ctx.require_count("R05.7", len(seen), 2, aa.where(), "--node and --region options")
+
+
+def r05_8(ctx, g):
+    """Region text CONTIG:a-b: contig = part before ':', a = first and b = last part of the '-' split of the remainder."""
+    import re as _re
+
+    roles = {}
+    for st in walk_own(g.node):
+        if isinstance(st, ast.Assign) and isinstance(st.value, ast.ListComp) and len(st.value.generators) == 1:
+            x = norm(st.value.generators[0].target)
+            e = norm(st.value.elt)
+            if e == f"{x}.split(':')[0]":
+                roles["contig"] = norm(st.targets[0])
+            elif e in (f"{x}.split(':')[1].split('-')[0]",):
+                roles["start"] = norm(st.targets[0])
+            elif e in (f"{x}.split(':')[1].split('-')[-1]", f"{x}.split(':')[1].split('-')[1]"):
+                roles["end"] = norm(st.targets[0])
+            elif ".split(" in e:
+                roles.setdefault("other", []).append((norm(st.targets[0]), e))
+    if "other" in roles or set(roles) != {"contig", "start", "end"}:
+        if not roles:
+            raise AnalysisError("R05.8", g.where(), "region parsing is not of the recognised list-comprehension form")
+        ctx.violated("R05.8", g.where(), f"region text is not split into contig / start / end as CONTIG:a-b requires: {roles}", key_of(g, f"region-parse:{sorted((k, str(v)) for k, v in roles.items())}"))
+        return
+    ctx.holds("R05.8", g.where(), "a region CONTIG:a-b is split into contig (before ':'), a (first) and b (last part of the '-' split)", roles=roles)
+    # the search receives them in that order
+    calls = [c for c in walk_own(g.node) if isinstance(c, ast.Call) and c.args and isinstance(c.args[0], (ast.List, ast.Tuple)) and len(c.args[0].elts) == 3]
+    for c in calls:
+        e = c.args[0].elts
+        names = []
+        for x in e:
+            names.append(norm(x.value) if isinstance(x, ast.Subscript) else norm(x))
+        ok = names[1] == roles["start"] and names[2] == roles["end"]
+        ctx.check(ok, "R05.8", g.where(c), "the search is given (contig, start, end) in this order", key_of(g, f"search-triple:{names}"), triple=names)
